@@ -20,6 +20,9 @@ CHECKS = {
                   {"quick": dict(shards=16, timeout=600), "thorough": dict(shards=16, timeout=3000)},
                   assumptions=["memory maps are built from a finite shape alphabet (see coverage.bound); frames are never dereferenced, so only frame numbers matter",
                                "frees of frames that are reserved but were never handed out (kernel image, early-boot frames) are outside the alphabet: neither C01 nor C03 defines them"]),
+    "C02": kernel("mm/pmm", pmm(["c01c03_test.go", "c02_test.go"]), "TestVerifC02", "exploration",
+                  {"quick": dict(shards=16, timeout=600), "thorough": dict(shards=16, timeout=3000)},
+                  assumptions=["only the direction 'no qualifying frame => out of memory' of the OOM clause is an oracle; the early allocator may report OOM while frames above the cursor remain (observed, within the statement, see DESIGN.md C02)"]),
     "C03": kernel("mm/pmm", pmm(["c01c03_test.go"]), "TestVerifPMM", "model_checking",
                   {"quick": dict(shards=16, timeout=600), "thorough": dict(shards=16, timeout=3000)},
                   assumptions=["same exploration as C01 with the accounting / error-contract oracles"]),
